@@ -488,3 +488,19 @@ Print Assumptions model_refused_send_is_silent.
 Print Assumptions model_meets_C06_initial.
 Print Assumptions model_meets_C06_initial_reliable.
 Print Assumptions model_meets_C06_initial_run.
+
+(* ---- C17, undecodable bytes: the model rejects them and changes nothing at all (Monitors.mon_C17_undecodable is the clause the
+   implementation is judged by) *)
+Lemma undecodable_changes_nothing (c:client) (now:N) (w:msg) : step c (Recv now false w) = (c, RInternal, []).
+Proof. reflexivity. Qed.
+Lemma step_C17_undecodable mc c s used o c' rep evs :
+  R mc c s used -> step c o = (c', rep, evs) ->
+  mon_C17_undecodable s (mop_of o rep) (obs_of c c' o rep evs) = true.
+Proof.
+  intros HR Hs. unfold mon_C17_undecodable.
+  destruct o as [now id r method app room|id method app room|now d w|now]; cbn [mop_of]; try reflexivity.
+  destruct d; [reflexivity|]. rewrite undecodable_changes_nothing in Hs. inversion Hs; subst c' rep evs.
+  cbn [obs_of ob_ret ob_events ob_same ob_K oret_of].
+  assert (Hsame : snap_eqb (snap c) (snap c) = true) by apply snap_eqb_refl.
+  rewrite Hsame. rewrite (R_K _ _ _ _ HR). rewrite !subsetb_refl. reflexivity.
+Qed.
